@@ -19,7 +19,8 @@ theorem C18_facts :
     Receptor.Facts.ads_keep_test = "si.Time.After(curSvc.Time)"
     ∧ Receptor.Facts.ads_tombstone_test = "withdrawn && !si.Time.After(withdrawnAt)"
     ∧ Receptor.Facts.ads_tombstones = true
-    ∧ Receptor.Facts.ads_relay = "keepCur:return;s.flood(data, receivedFrom)" := by decide
+    ∧ Receptor.Facts.ads_relay = "keepCur:return;s.flood(data, receivedFrom)"
+    ∧ Receptor.Facts.ads_stamp = "collect:Time=time.Now(),under-listenerLock;send:unstamped" := by decide +kernel
 
 def about (k : Node × Svc) (m : Msg) : Bool := (m.node, m.svc) == k
 
@@ -292,5 +293,48 @@ theorem ads_in_order_partial (k : Node × Svc) : ∀ (h : List (Msg × Node)) (c
       simp only [ha', Bool.false_eq_true, if_false, List.filter]
       exact ih cur lo hcur (by simpa [List.filter, ha'] using hpw)
         (fun y hy hay => hlo y (by simp [hy]) hay)
+
+
+/-- **withdrawn_stays_withdrawn.** Whatever else a node hears, in whatever order and however often: if the history
+contains a withdrawal of a service and every advertisement of that service in the history is older than it, the
+node does not list the service. -/
+theorem withdrawn_stays_withdrawn (k : Node × Svc) (h : List (Msg × Node)) (conns : List Node) (wd : Msg) (r : Node)
+    (hwd : (wd, r) ∈ h) (hk : about k wd = true)
+    (hold : ∀ x ∈ h, about k x.1 = true → x.1.cancel = false → x.1.time < wd.time) (t : Nat) (i : Info) :
+    get? (run true { table := [], conns := conns } h).1 k ≠ some (.live t i) := by
+  intro hl
+  obtain ⟨hmax, x, hx, hax, htx, hcx, _⟩ := ads_no_resurrection k h conns t i hl
+  have h1 := hmax (wd, r) hwd hk
+  have h2 := hold x hx hax hcx
+  simp only at h1
+  omega
+
+/-- **owner_race_no_resurrection.** A periodic advertisement round of the owner that overlaps the closing of the
+listener: the advertisement carries the time at which the listener was seen to exist, which precedes the withdrawal,
+so no node that receives the two messages — in either order, repeated, mixed with anything older — lists the
+closed service. -/
+theorem owner_race_no_resurrection (node : Node) (svc : Svc) (info : Info) (rc : OwnerRace) (hlt : rc.collectAt < rc.closeAt)
+    (h : List (Msg × Node)) (conns : List Node) (r : Node)
+    (hwd : (ownerWithdrawal node svc rc, r) ∈ h)
+    (hold : ∀ x ∈ h, about (node, svc) x.1 = true → x.1.cancel = false → x.1.time ≤ (ownerAd true node svc info rc).time)
+    (t : Nat) (i : Info) :
+    get? (run true { table := [], conns := conns } h).1 (node, svc) ≠ some (.live t i) := by
+  apply withdrawn_stays_withdrawn (node, svc) h conns (ownerWithdrawal node svc rc) r hwd
+  · simp [about, ownerWithdrawal]
+  · intro x hx ha hc
+    have := hold x hx ha hc
+    simp only [ownerAd, if_true, ownerWithdrawal] at this ⊢
+    omega
+
+/-- Witness: stamped when it is sent, the stale advertisement is newer than the withdrawal and resurrects the
+closed service at every node, in either order of arrival. -/
+theorem C18_witness_stamped_at_send :
+    let rc : OwnerRace := { collectAt := 1, closeAt := 2, sendAt := 3 }
+    let inf : Info := ⟨0, []⟩
+    (listed (run true { table := [], conns := [] } [(ownerWithdrawal [1] [2] rc, [9]), (ownerAd false [1] [2] inf rc, [9])]).1).length = 1
+    ∧ (listed (run true { table := [], conns := [] } [(ownerAd false [1] [2] inf rc, [9]), (ownerWithdrawal [1] [2] rc, [9])]).1).length = 1
+    ∧ (listed (run true { table := [], conns := [] } [(ownerWithdrawal [1] [2] rc, [9]), (ownerAd true [1] [2] inf rc, [9])]).1).length = 0
+    ∧ (listed (run true { table := [], conns := [] } [(ownerAd true [1] [2] inf rc, [9]), (ownerWithdrawal [1] [2] rc, [9])]).1).length = 0 := by
+  decide
 
 end Receptor.Ads
